@@ -37,7 +37,7 @@ var (
 func (prop) Gen(r *core.Rand, tier string) []core.Case {
 	n := 400
 	if tier == "thorough" {
-		n = 6000
+		n = 4000
 	}
 	cs := []core.Case{
 		{ID: "fix-zombie", NT: true, Ops: []string{"err z", "sub z a k - 1", "dump", "pub a k - m1", "sub n0 a k -", "err n0", "sub n0 a k p 11", "dump", "pub a k p m2"}},
